@@ -24,6 +24,8 @@ type rig struct {
 	tick   int
 	manual string
 	closed bool
+	// expectExit is set by monitors that make fabio exit themselves (shutdown)
+	expectExit bool
 }
 
 var rigSeq atomic.Int64
@@ -129,7 +131,7 @@ func (r *rig) close() {
 		return
 	}
 	r.closed = true
-	died := !r.proc.Alive()
+	died := !r.proc.Alive() && !r.expectExit
 	r.proc.Stop()
 	r.agent.Close()
 	for _, p := range r.proc.ScanLog() {
